@@ -944,3 +944,47 @@ Proof.
   - destruct (m_disabled m); destruct v; try reflexivity; apply probe_custom_not_fail.
   - destruct v; reflexivity.
 Qed.
+
+(* ---------------------------------------------------------------- genesis: the flags are honoured exactly *)
+
+Lemma keys_put_new {V} (l : list (Z * V)) k v : lookup l k = None -> keys (put l k v) = keys l ++ [k].
+Proof.
+  induction l as [|[y w] r IH]; cbn; intros H; auto.
+  destruct (y =? k) eqn:E; [discriminate|]. cbn. f_equal. auto.
+Qed.
+
+Lemma genesis_contents caddr n sup g s : init_genesis caddr (empty_state n sup) g = Some s ->
+  keys (metas s) = (if g_erc20_native g then [caddr n] else []) ++ (if g_staking g then [STAKING_ADDR] else []) ++ [BECH32_ADDR]
+  /\ mseq s = n + (if g_erc20_native g then 1 else 0)
+  /\ prm s = g_params g
+  /\ didx s = (if g_erc20_native g then [(g_bond_denom g, caddr n)] else []).
+Proof.
+  unfold init_genesis.
+  destruct (set_params (empty_state n sup) (g_params g)) as [s1 r1] eqn:P. destruct r1; try discriminate.
+  apply set_params_ok in P. destruct P as [PV [_ [-> _]]].
+  destruct (if g_erc20_native g then _ else _) as [s2 r2] eqn:E2. destruct r2; try discriminate.
+  assert (A2 : keys (metas s2) = (if g_erc20_native g then [caddr n] else [])
+               /\ mseq s2 = n + (if g_erc20_native g then 1 else 0) /\ prm s2 = g_params g
+               /\ didx s2 = (if g_erc20_native g then [(g_bond_denom g, caddr n)] else [])).
+  { destruct (g_erc20_native g).
+    - apply deploy_erc20_ok in E2. destruct E2 as [Ea [_ [Ld [Sp [Lm [Vm [Em [Ed [Ep [Es Eu]]]]]]]]]].
+      cbn in *. subst addr0. rewrite Em, Ed, Ep, Es. cbn. repeat split; auto.
+    - inversion E2; subst. cbn. repeat split; auto. lia. }
+  destruct A2 as [K2 [S2 [P2 D2]]].
+  destruct (if g_staking g then _ else _) as [s3 r3] eqn:E3. destruct r3; try discriminate.
+  assert (A3 : keys (metas s3) = keys (metas s2) ++ (if g_staking g then [STAKING_ADDR] else [])
+               /\ mseq s3 = mseq s2 /\ prm s3 = prm s2 /\ didx s3 = didx s2).
+  { destruct (g_staking g).
+    - apply deploy_staking_ok in E3. destruct E3 as [Ea [Lm [Vm ->]]]. subst addr1. cbn [metas mseq prm didx with_metas].
+      rewrite keys_put_new by exact Lm. auto.
+    - inversion E3; subst. rewrite app_nil_r. auto. }
+  destruct A3 as [K3 [S3 [P3 D3]]].
+  destruct (deploy_bech32 s3) as [s4 r4] eqn:E4. destruct r4; try discriminate.
+  intros [= <-]. apply deploy_bech32_ok in E4. destruct E4 as [Ea [Lm [Vm ->]]]. subst addr2.
+  cbn [metas mseq prm didx with_metas]. rewrite keys_put_new by exact Lm.
+  rewrite K3, K2, S3, S2, P3, P2, D3, D2, <- app_assoc. auto.
+Qed.
+
+(* a refused or panicking operation leaves no trace *)
+Lemma refused_no_trace caddr s o : (forall a, snd (step caddr s o) <> ROk a) -> fst (step caddr s o) = s.
+Proof. intros H. destruct (step caddr s o) as [s' r] eqn:E. cbn in *. eapply step_fail; eauto. Qed.
